@@ -210,27 +210,31 @@ Definition spec_c09 (c : case) : bool :=
 (** C07 (dial level): every caller waiting for the dial returns once the
     dial has failed, the connection was closed, or its context ended; after
     Close reservations are refused as closed. *)
-Fixpoint c07z_walk (waiting : list nat) (closed : bool) (sc : list (zaction * zobs)) : bool :=
+Fixpoint c07z_walk (waiting : list nat) (dialing closed : bool) (sc : list (zaction * zobs)) : bool :=
   match sc with
   | [] => true
   | (a, o) :: t =>
     let returned c := existsb (fun x => Nat.eqb (fst x) c) (z_ret o) in
     let ok1 :=
       match a with
-      | YDial false | YClose => forallb returned waiting
+      | YDial false => forallb returned waiting
+      | YClose => if dialing then forallb returned waiting else true
       | YCancel c => if gmem c waiting then returned c else true
-      | YReserve c | YReserveBg c => if closed then z_code o =? 3 else true
+      | YReserve c | YReserveBg c =>
+        (* after Close a reservation is refused as closed (or is still parked behind an early caller the harness holds) *)
+        if closed then (z_code o =? 3) || (z_code o =? 9) else true
       | _ => true
-      end in
-    let waiting1 := match a with YStart c => c :: waiting | _ => waiting end in
+      end && (if closed then forallb (fun x => snd x =? 3) (z_bg o) else true) in
+    let waiting1 := match a with YStart c => if dialing then c :: waiting else waiting | _ => waiting end in
     let closed1 := match a with YClose => true | _ => closed end in
-    (* after a successful dial the waiters proceed to the re-reservation: no longer waiting for the dial *)
-    let waiting2 := match a with YDial true => [] | _ => filter (fun c => negb (returned c)) waiting1 end in
-    ok1 && c07z_walk waiting2 closed1 t
+    let dialing1 := match a with YDial _ | YClose => false | _ => dialing end in
+    (* after the dial has finished nobody waits for it any more *)
+    let waiting2 := if dialing1 then filter (fun c => negb (returned c)) waiting1 else [] in
+    ok1 && c07z_walk waiting2 dialing1 closed1 t
   end.
 
 Definition spec_c07 (c : case) : bool :=
-  match c with CLazy _ _ script _ _ _ => c07z_walk [] false script end.
+  match c with CLazy _ _ script _ _ _ => c07z_walk [] true false script end.
 
 Definition zactions (c : case) : list zaction := match c with CLazy _ _ script _ _ _ => map fst script end.
 Definition nontrivial_c09 (c : case) : bool :=
@@ -242,3 +246,19 @@ Definition nontrivial_c09 (c : case) : bool :=
 Definition nontrivial_c07 (c : case) : bool :=
   existsb (fun a => match a with YDial false | YClose | YCancel _ => true | _ => false end) (zactions c)
   && existsb (fun a => match a with YStart _ => true | _ => false end) (zactions c).
+
+(** Debug aid: per action (action-specific check, returns/background check). *)
+Fixpoint trace_zscript (s : lst) (bg : list nat) (sc : list (zaction * zobs)) : list (bool * bool * list (nat * N) * list (nat * N)) :=
+  match sc with
+  | [] => []
+  | (a, o) :: t =>
+    match exec_zaction s bg a o with
+    | Some (s1, bg1, ok1) =>
+      let '(s2, bg2, done) := bg_progress (S (length bg1)) s1 bg1 [] in
+      (ok1, list_eqb pair_eqb (sort_p (returned_between s s2)) (sort_p (z_ret o)) && list_eqb pair_eqb done (z_bg o),
+       returned_between s s2, done) :: trace_zscript s2 bg2 t
+    | None => [(false, false, [], [])]
+    end
+  end.
+Definition trace (c : case) :=
+  match c with CLazy maxq im script _ _ _ => trace_zscript (linit maxq im) [] script end.
